@@ -538,6 +538,9 @@ impl Gen {
                     return self.definition(sc, depth);
                 }
                 let mut sc2 = sc.clone();
+                // the new body must not call the name being redefined: after the define it would refer to
+                // itself (unbounded non-tail recursion), not to the previous procedure
+                sc2.procs.retain(|q| q.name != p.name);
                 let mut params = vec![a(&p.name)];
                 for _ in 0..p.fixed {
                     let q = self.fresh("q");
